@@ -38,6 +38,18 @@ def split_functions(mir_text):
     return fns
 
 
+def norm_place(txt, alias):
+    """`((*_5).2: T)` -> `(*_5).2`, following references held in locals: `(*_26)` -> what _26 points to"""
+    t = txt.strip()
+    t = re.sub(r": [^()]*(?:\([^()]*\)[^()]*)*\)", ")", t)
+    t = re.sub(r"^\((.*)\)$", r"\1", t)
+    m = re.fullmatch(r"\(\*(_\d+)\)|\*(_\d+)", t)
+    if m:
+        loc = m.group(1) or m.group(2)
+        return alias.get(loc, t)
+    return t
+
+
 def split_args(s):
     out, depth, cur = [], 0, ""
     for ch in s:
@@ -61,10 +73,14 @@ class Path:
         self.cond = []         # list of (term, expected value) branch decisions
         self.calls = []        # (fname, [arg terms], result term, cond snapshot)
         self.trace = []
+        self.label = "return"
+        self.alias = {}        # local holding a reference -> normalised place text it points to
 
 
 class Executor:
-    def __init__(self, fn, inputs=None, max_paths=4000):
+    def __init__(self, fn, inputs=None, max_paths=4000, stops=None, max_visits=None):
+        self.stops = stops or {}
+        self.max_visits = max_visits
         self.fn = fn
         self.inputs = inputs or {}
         self.paths = []
@@ -74,9 +90,21 @@ class Executor:
     # ---------------------------------------------------------------- places / operands
     def place(self, p, txt):
         txt = txt.strip()
-        m = re.fullmatch(r"\((.+)\.(\d+): [^()]*(?:\([^()]*\)[^()]*)*\)", txt)
-        if m:
-            return ("field", self.place(p, m.group(1)), int(m.group(2)))
+        if txt.startswith("(") and txt.endswith(")") and ": " in txt:
+            # (BASE.N: TYPE) with arbitrary nesting: split at the last ".N: " at depth 1
+            depth = 0
+            cut = None
+            for i, ch in enumerate(txt):
+                if ch in "([<{":
+                    depth += 1
+                elif ch in ")]>}":
+                    depth -= 1
+                elif ch == "." and depth == 1:
+                    mm = re.match(r"\.(\d+): ", txt[i:])
+                    if mm:
+                        cut = (i, int(mm.group(1)))
+            if cut:
+                return ("field", self.place(p, txt[1:cut[0]]), cut[1])
         m = re.fullmatch(r"\((.+) as (\w+)\)", txt)
         if m:
             return ("downcast", self.place(p, m.group(1)), m.group(2))
@@ -91,11 +119,17 @@ class Executor:
             if txt in p.env:
                 return p.env[txt]
             return ("sym", f"{self.fn.name}:{txt}")
+        if not txt.startswith(("_", "(", "*")):
+            return ("const", txt)  # function items and other named constants used as operands
         self.unknown.append("place: " + txt)
         return ("sym", "?" + txt)
 
     def operand(self, p, txt):
         txt = txt.strip()
+        if txt.startswith("no_retag "):
+            txt = txt[len("no_retag "):]
+        if txt.startswith("const ZeroSized: {closure@"):
+            return ("closure", re.match(r"const ZeroSized: \{closure@([^}]*)\}", txt).group(1), {})
         if txt.startswith(("copy ", "move ")):
             return self.place(p, txt[5:])
         if txt.startswith("const "):
@@ -119,10 +153,23 @@ class Executor:
             val = ("discr", self.place(p, rhs[len("discriminant("):-1]))
         elif rhs.startswith("&mut ") or rhs.startswith("&raw "):
             val = ("mutref", rhs.split(" ", 1)[1].replace("mut ", "").strip())
+            p.alias[lhs] = norm_place(val[1], p.alias)
         elif rhs.startswith("&"):
             val = self.place(p, rhs[1:].strip())
-        elif rhs.startswith(("copy ", "move ", "const ")):
+            p.alias[lhs] = norm_place(rhs[1:].strip(), p.alias)
+        elif re.fullmatch(r"(.+?) as (.+) \((\w+)(\(.*\))?\)", rhs):
+            # cast: `OPERAND as TYPE (Kind)`; transparent
+            val = self.operand(p, re.fullmatch(r"(.+?) as (.+) \((\w+)(\(.*\))?\)", rhs).group(1))
+        elif rhs.startswith(("copy ", "move ", "const ", "no_retag ")):
             val = self.operand(p, rhs)
+        elif rhs.startswith("{closure@") or rhs.startswith("const ZeroSized: {closure@"):
+            mm = re.match(r"(?:const ZeroSized: )?\{closure@([^}]*)\}(?: \{(.*)\})?$", rhs)
+            fields = {}
+            if mm and mm.group(2):
+                for f in split_args(mm.group(2)):
+                    k, v = f.split(":", 1)
+                    fields[k.strip()] = self.operand(p, v)
+            val = ("closure", mm.group(1) if mm else rhs, fields)
         elif re.fullmatch(r"[\w:<>', ]+::Some\((.+)\)", rhs):
             val = ("some", self.operand(p, re.fullmatch(r"[\w:<>', ]+::Some\((.+)\)", rhs).group(1)))
         elif re.fullmatch(r"[\w:]+ \{.*\}", rhs):
@@ -138,8 +185,6 @@ class Executor:
         elif re.fullmatch(r"\[.*\]", rhs) or re.fullmatch(r"\(.*\)", rhs):
             inner = rhs[1:-1]
             val = ("tuple", [self.operand(p, x) for x in split_args(inner)])
-        elif " as " in rhs:
-            val = self.operand(p, rhs.split(" as ")[0])
         else:
             self.unknown.append("rvalue: " + rhs)
             val = ("sym", "?" + rhs)
@@ -153,6 +198,8 @@ class Executor:
             if m:
                 base = p.env.get(m.group(1), ("sym", f"{self.fn.name}:{m.group(1)}"))
                 p.env[m.group(1)] = ("upd", base, int(m.group(2)), val)
+            elif lhs.startswith("(*"):
+                pass  # store through a reference: not tracked (the analyses that use this executor do not read it back)
             else:
                 self.unknown.append("store: " + lhs)
 
@@ -170,12 +217,20 @@ class Executor:
         q.cond = list(p.cond)
         q.calls = list(p.calls)
         q.trace = list(p.trace)
+        q.label = p.label
+        q.alias = dict(p.alias)
         return q
 
     def _go(self, p, bb, depth):
         if len(self.paths) > self.max_paths or depth > 400:
             self.unknown.append("path limit")
             return
+        if bb in self.stops and p.trace:
+            p.label = self.stops[bb]
+            self.paths.append(p)
+            return
+        if self.max_visits is not None and p.trace.count(bb) >= self.max_visits:
+            return  # bounded unrolling of inner loops: deeper paths are outside the bound
         stmts, term, cleanup = self.fn.blocks[bb]
         p.trace.append(bb)
         for s in stmts:
@@ -249,16 +304,18 @@ class Executor:
             fname, args = expr[:i].strip(), expr[i + 1:-1]
             argterms = []
             mutated = []
+            places = []
             for a in split_args(args):
                 v = self.operand(p, a)
+                loc0 = self.root_local(a)
+                places.append(p.alias.get(loc0) if re.fullmatch(r"(copy|move) _\d+", a.strip()) else None)
                 if isinstance(v, tuple) and v[0] == "mutref":
                     loc = self.root_local(v[1])
-                    cur = p.env.get(loc, ("sym", f"{self.fn.name}:{loc}"))
                     mutated.append(loc)
-                    v = cur
+                    v = self.place(p, v[1])
                 argterms.append(v)
             res = ("call", fname, argterms)
-            p.calls.append((fname, argterms, res, list(p.cond)))
+            p.calls.append((fname, argterms, res, list(p.cond), places))
             for loc in mutated:
                 p.env[loc] = ("mut", fname, p.env.get(loc, ("sym", f"{self.fn.name}:{loc}")), [a for a in argterms])
             if dest:
